@@ -1,9 +1,15 @@
 (* Extract/E_C05.v — wire entry for C05 (glue, not trusted for theorems).
    case  [1, file, crs, ncols, offs, index_map]                      driver called directly
          [2, file, crs, names, sizes, [] | [include], [] | [exclude]]  read_csv_with_schema_dict
-   answer [rows, [[indices, values] per imported column], trace (one row per kernel call, in call order)] *)
+         [3, file, crs, ncols, offs, index_map, defs]                  driver called directly, typed importer list
+         [4, file, crs, names, sizes, defs]                            read_csv_with_schema_dict, typed schema
+         def = [0] string | [1, n] fixed string | [2, cats] categorical | [3, cats] categorical + free text
+             | [4, inv, mode] bool | [5, lo, hi, mode, inv_text, inv_val] integer      (Model/CsvTyped.v)
+   answer [rows, [[indices, values] per imported column], trace (one row per kernel call, in call order)];
+          a typed column answers [data] (fixed, categorical), [codes, freetext indices, freetext values]
+          (categorical + free text) or [values, flags] (bool, integer) *)
 From Coq Require Import ZArith List Bool.
-From EV Require Import Res Arr Val Csv.
+From EV Require Import Res Arr Val Csv Transform CsvTyped.
 Import ListNotations.
 Open Scope Z_scope.
 
@@ -31,6 +37,42 @@ Definition enc_dst (d:dst) : val :=
       VL (map (fun m => VL [vlist (i_indices m); vlist (i_values m)]) (d_imps d));
       vlist2 (rev (d_trace d))].
 
+Definition as_cats5 (v:val) : option (list (list Z * Z)) :=
+  match v with
+  | VL l => all_some (map (fun kv => match kv with
+                                     | VL [k; VZ x] => match as_list k with Some k => Some (k, x) | None => None end
+                                     | _ => None end) l)
+  | _ => None
+  end.
+
+Definition as_fdef (v:val) : option fdef :=
+  match v with
+  | VL [VZ 0] => Some FStr
+  | VL [VZ 1; VZ n] => Some (FFixed n)
+  | VL [VZ 2; cats] => option_map FCat (as_cats5 cats)
+  | VL [VZ 3; cats] => option_map FLeaky (as_cats5 cats)
+  | VL [VZ 4; VZ inv; VZ mode] => Some (FBool inv mode)
+  | VL [VZ 5; VZ lo; VZ hi; VZ mode; it; VZ iv] =>
+      match as_list it with Some it => Some (FInt lo hi mode it iv) | None => None end
+  | _ => None
+  end.
+
+Definition as_fdefs (v:val) : option (list fdef) :=
+  match v with VL l => all_some (map as_fdef l) | _ => None end.
+
+Definition enc_fimp (m:fimp) : val :=
+  match m with
+  | MStr s => VL [vlist (i_indices s); vlist (i_values s)]
+  | MFixed _ d => VL [vlist d]
+  | MCat _ d => VL [vlist d]
+  | MLeaky _ st => VL [vlist (ls_data st); vlist (ls_idx st); vlist (ls_vals st)]
+  | MBool _ _ st => VL [vlist (fst st); vlist (snd st)]
+  | MInt _ _ _ _ _ st => VL [vlist (fst st); vlist (snd st)]
+  end.
+
+Definition enc_gdst (d:gdst (list fimp)) : val :=
+  VL [VZ (g_acc d); VL (map enc_fimp (g_imps d)); vlist2 (rev (g_trace d))].
+
 Definition entry_C05 (v:val) : val :=
   match v with
   | VL [VZ 1; file; VZ crs; VZ ncols; offs; imap] =>
@@ -44,6 +86,18 @@ Definition entry_C05 (v:val) : val :=
       | Some file, Some names, Some sizes, Some inc, Some exc =>
           of_res' enc_dst (read_csv (drv_fuel file) file names sizes inc exc crs)
       | _, _, _, _, _ => vbad
+      end
+  | VL [VZ 3; file; VZ crs; VZ ncols; offs; imap; defs] =>
+      match as_list file, as_list offs, as_list imap, as_fdefs defs with
+      | Some file, Some offs, Some imap, Some defs =>
+          of_res' enc_gdst (tread_file (drv_fuel file) file crs ncols offs imap defs)
+      | _, _, _, _ => vbad
+      end
+  | VL [VZ 4; file; VZ crs; names; sizes; defs] =>
+      match as_list file, as_list2 names, as_list sizes, as_fdefs defs with
+      | Some file, Some names, Some sizes, Some defs =>
+          of_res' enc_gdst (tread_csv (drv_fuel file) file names sizes defs crs)
+      | _, _, _, _ => vbad
       end
   | _ => vbad
   end.
